@@ -501,54 +501,125 @@ def _consumers(ctx, rid, shell):
                    'logsumexp of the weight vector itself: they do not sum to one'
                    % (unparse(dn.ast)[:60] if dn.ast is not None else '?'))
 
-    # ---- E6 n_eff
+    # ---- E6 n_eff: the returned value as a monomial in sums over the shells
     f = prog.func('Sampler.n_eff')
     alg, env = _shell_algebra(f)
+    sums = []
+    sum_ix = {}
+
+    def mono(e, depth=0):
+        """{index of a shell sum | other symbol: power}; a sum is np.sum(<per-shell term>)."""
+        if depth > 10:
+            raise Undecided('expression too deep')
+        if isinstance(e, ast.Name) and alg._def(e.id):
+            v, d = alg._def(e.id)
+            return alg._in(d, mono, v, depth + 1)
+        if isinstance(e, ast.Call) and dotted(e.func) in ('np.sum', 'sum', 'np.nansum') and \
+                len(e.args) == 1:
+            if id(e) not in sum_ix:
+                sums.append(alg.P(e.args[0]))
+                sum_ix[id(e)] = len(sums) - 1
+            return {('sum', sum_ix[id(e)]): F(1)}
+        if isinstance(e, ast.BinOp):
+            if isinstance(e.op, ast.Mult):
+                return add(mono(e.left, depth + 1), mono(e.right, depth + 1))
+            if isinstance(e.op, ast.Div):
+                return add(mono(e.left, depth + 1), mono(e.right, depth + 1), -1)
+            if isinstance(e.op, ast.Pow) and _c(e.right) is not None:
+                return scale(mono(e.left, depth + 1), _c(e.right))
+        if _c(e) is not None and _c(e) > 0:
+            return {} if _c(e) == 1 else {('const', _c(e)): F(1)}
+        raise Undecided('`%s` is not a product / quotient / power of sums over the shells'
+                        % unparse(e)[:50])
     ret = [r for r in walk_no_nested(f.node) if isinstance(r, ast.Return) and
-           isinstance(r.value, ast.BinOp) and isinstance(r.value.op, ast.Div)]
+           r.value is not None and not isinstance(r.value, ast.Constant)]
     if len(ret) == 1:
         try:
-            num, den = ret[0].value.left, ret[0].value.right
-
-            def sum_arg(e):
-                if isinstance(e, ast.Call) and dotted(e.func) in ('np.sum', 'sum', 'np.nansum') \
-                        and len(e.args) == 1:
-                    return e.args[0]
-                return None
-            # numerator: np.sum(X) ** 2
-            if not (isinstance(num, ast.BinOp) and isinstance(num.op, ast.Pow) and
-                    _c(num.right) == 2 and sum_arg(num.left) is not None and
-                    sum_arg(den) is not None):
-                raise Undecided('n_eff is not of the form sum(x)**2 / sum(y)')
             alg.at(ret[0])
-            x = alg.P(sum_arg(num.left))
-            y = alg.P(sum_arg(den))
-            # x must be the evidence term up to a common shift; y the sum of squared weights
-            okx = same({k: v for k, v in x.items() if k != 'c'}, {'A': F(1), 'B': F(1)})
+            m = mono(ret[0].value)
+            pw = sorted((v, k) for k, v in m.items())
+            shape_ok = len(sums) == 2 and sorted(v for v in m.values()) == [F(-1), F(2)] and \
+                all(k[0] == 'sum' for k in m)
             n += 1
-            ctx.ob(rid, 'Sampler.n_eff:numerator-is-evidence', okx, f.where(ret[0]),
-                   'numerator sums exp(%s) over the shells' % fmt(x) if okx else
-                   'the numerator of n_eff sums exp(%s), not the shells\' evidence terms'
-                   % fmt(x))
-            hom = 2 * x.get('c', 0) == y.get('c', 0)
-            n += 1
-            ctx.ob(rid, 'Sampler.n_eff:shift-cancels', hom, f.where(ret[0]),
-                   'the common shift enters numerator^2 and denominator with the same power' if
-                   hom else 'the stabilising shift does not cancel between numerator and '
-                   'denominator: n_eff depends on the scale of the likelihood')
-            if A is not None and B1 is not None and E is not None:
-                ys = subst({k: v for k, v in y.items() if k != 'c'})
-                want = add(scale(add(B1, {'ln': F(-1)}), 2), {'lS2': F(1)})
-                oky = same(ys, want)
+            ctx.ob(rid, 'Sampler.n_eff:square-of-sum-over-sum', shape_ok, f.where(ret[0]),
+                   'n_eff = (sum over shells)^2 / (sum over shells)' if shape_ok else
+                   'n_eff is returned as %s of %d shell sums, not as the square of one sum '
+                   'divided by another' % ([(str(v), k[0]) for v, k in pw], len(sums)))
+            if shape_ok:
+                ix = [k[1] for k, v in m.items() if v == 2][0]
+                iy = [k[1] for k, v in m.items() if v == -1][0]
+                x, y = sums[ix], sums[iy]
+                okx = same({k: v for k, v in x.items() if k != 'c'}, {'A': F(1), 'B': F(1)})
                 n += 1
-                ctx.ob(rid, 'Sampler.n_eff:denominator-is-sum-of-squared-weights', oky,
-                       f.where(ret[0]),
-                       'per shell the denominator is %s = sum_j w_j^2: n_eff is the Kish size '
-                       'of the held samples' % fmt(ys) if oky else
-                       'per shell the denominator is %s but sum_j w_j^2 is %s: n_eff is not the '
-                       'Kish effective sample size of the weights' % (fmt(ys), fmt(want)))
+                ctx.ob(rid, 'Sampler.n_eff:numerator-is-evidence', okx, f.where(ret[0]),
+                       'numerator sums exp(%s) over the shells' % fmt(x) if okx else
+                       'the numerator of n_eff sums exp(%s), not the shells\' evidence terms'
+                       % fmt(x))
+                hom = 2 * x.get('c', 0) == y.get('c', 0)
+                n += 1
+                ctx.ob(rid, 'Sampler.n_eff:shift-cancels', hom, f.where(ret[0]),
+                       'the common shift enters numerator^2 and denominator with the same power'
+                       if hom else 'the stabilising shift does not cancel between numerator and '
+                       'denominator: n_eff depends on the scale of the likelihood')
+                if A is not None and B1 is not None and E is not None:
+                    ys = subst({k: v for k, v in y.items() if k != 'c'})
+                    want = add(scale(add(B1, {'ln': F(-1)}), 2), {'lS2': F(1)})
+                    oky = same(ys, want)
+                    n += 1
+                    ctx.ob(rid, 'Sampler.n_eff:denominator-is-sum-of-squared-weights', oky,
+                           f.where(ret[0]),
+                           'per shell the denominator is %s = sum_j w_j^2: n_eff is the Kish '
+                           'size of the held samples' % fmt(ys) if oky else
+                           'per shell the denominator is %s but sum_j w_j^2 is %s: n_eff is not '
+                           'the Kish effective sample size of the weights' % (fmt(ys), fmt(want)))
         except Undecided as exc:
             ctx.note('%s not decided for n_eff: %s' % (rid, exc))
     else:
-        ctx.note('%s not decided for n_eff: no single quotient return' % rid)
+        ctx.note('%s not decided for n_eff: no single non-constant return' % rid)
+
+    # ---- f_live: the live share of the evidence, exp(lse(w_live) - lse(w))
+    f = prog.func('Sampler.f_live')
+    cfgf = cfg_of(f)
+    for r in walk_no_nested(f.node):
+        if not (isinstance(r, ast.Return) and isinstance(r.value, ast.Call) and
+                dotted(r.value.func) == 'np.exp' and r.value.args):
+            continue
+        a = r.value.args[0]
+        ok = isinstance(a, ast.BinOp) and isinstance(a.op, ast.Sub) and all(
+            isinstance(x, ast.Call) and (dotted(x.func) or '').endswith('logsumexp') and x.args
+            for x in (a.left, a.right))
+        whole = live = None
+        if ok:
+            live, whole = a.left.args[0], a.right.args[0]
+            # the live weights are a selection of the whole weight vector
+            lv = live
+            if isinstance(lv, ast.Name) and cfgf.has(r):
+                ds = cfgf.defs_at(cfgf.node_of(r).id, lv.id)
+                if len(ds) == 1 and isinstance(cfgf.nodes[next(iter(ds))].ast, ast.Assign):
+                    lv = cfgf.nodes[next(iter(ds))].ast.value
+            base = lv
+            while isinstance(base, ast.Subscript):
+                base = base.value
+            ok = unparse(base) == unparse(whole)
+        n += 1
+        ctx.ob(rid, 'Sampler.f_live:live-share-of-evidence', ok, f.where(r),
+               'f_live = exp(logsumexp(live weights) - logsumexp(all weights)), the live weights '
+               'being a selection of all weights' if ok else
+               'f_live is `%s`: not the ratio of the live weights\' sum to the sum of all '
+               'weights' % unparse(r.value)[:70])
+    # fail closed on clauses that could not be decided: an anchored formula in a shape the
+    # algebra does not understand is an analysis error, not a pass
+    need = ['Sampler.update_shell_info:shell-volume', 'Sampler.update_shell_info:evidence-term',
+            'Sampler.update_shell_info:kish-per-shell', 'Sampler.log_z:sum-of-evidence-terms',
+            'Sampler.posterior:per-sample-volume', 'Sampler.f_live:per-sample-volume',
+            'Sampler.log_v_live:per-sample-volume',
+            'Sampler.posterior:weight-is-likelihood-times-volume',
+            'Sampler.f_live:weight-is-likelihood-times-volume',
+            'Sampler.posterior:weights-normalised-by-own-sum',
+            'Sampler.n_eff:square-of-sum-over-sum', 'Sampler.f_live:live-share-of-evidence']
+    have = {o.construct for o in ctx.obligations if o.rule == rid}
+    missing = [c for c in need if c not in have]
+    if missing:
+        ctx.floor_failures.append('rule %s could not decide %s (%s)' % (
+            rid, missing, '; '.join(x for x in ctx.notes if x.startswith(rid))[:300]))
     return n
